@@ -892,7 +892,8 @@ pub fn exec_raw(p: &RawPlan, trace: bool) -> Exec {
         let slot = 200 + i;
         let mut b = Vec::new();
         rc::put_varint(if st.bidi { rc::FRAME_WT_STREAM } else { rc::STREAM_WT_UNI }, &mut b);
-        rc::put_varint_len(0, st.sid_len, &mut b);
+        let session_id = if p.base.server_under_test { 4 * p.base.burn } else { 0 };
+        rc::put_varint_len(session_id, st.sid_len.max(rc::varint_len(session_id)), &mut b);
         b.extend_from_slice(&pattern(st.key, st.len));
         acts.push(if st.bidi { Act::OpenBi { slot } } else { Act::OpenUni { slot } });
         let mut off = 0;
@@ -970,6 +971,9 @@ impl TypedScenario for C01Raw {
         let mut base = crate::rawscript::base_script(seed, index % 2 == 0);
         base.net.lat_min_us = *rng.pick(&[200u64, 1_000, 5_000]);
         base.read_cap = if rng.chance_pm(200) { rng.usize(1, 3) } else { 0 };
+        // non-zero session ids (the CONNECT request is not on the first stream of the connection)
+        base.burn = if base.server_under_test && rng.chance_pm(400) { *rng.pick(&[1u64, 2, 15, 16, 63, 64, 300]) } else { 0 };
+        base.k.max_bi = 400;
         let n = rng.usize(1, 4);
         let streams = (0..n)
             .map(|_| {
@@ -996,6 +1000,8 @@ impl TypedScenario for C01Raw {
             c.extend(shrink_num(&v, &format!("/streams/{i}/len"), 1));
         }
         c.extend(shrink_num(&v, "/base/read_cap", 0));
+        c.extend(shrink_num(&v, "/base/burn", 0));
+        c.extend(shrink_num(&v, "/base/long_gap_ms", 0));
         c.into_iter().filter_map(|v| serde_json::from_value(v).ok()).collect()
     }
 }
@@ -1008,7 +1014,7 @@ pub fn def() -> PropertyDef {
             Box::new(Typed(C01E2E { faulty: true })),
             Box::new(Typed(C01Raw)),
         ],
-        rule: "Each run: real wtransport client and server over the simulated network, 1-12 concurrent streams over the roles {client,server} x {uni, bidi (both directions)}, payload lengths boundary-biased from 0 to 3 flow-control windows (windows are per-run knobs), generated write partitions (write / write_all / tokio AsyncWrite) and read partitions (read / read_exact / tokio AsyncRead, buffers 1 B..64 KiB) with pauses, a third of the bidirectional streams joined into a BiStream on either side and used through tokio's AsyncRead / AsyncWrite, optional 1-3 byte short-read cap on protocol-level reads; the fault batch adds loss / duplication / reordering / corruption for the first 30 s plus 0-3 scripted link events: two-way or one-way partitions of 20 ms-4 s that heal, inbound stalls of 5-400 ms at either node, NAT rebinds of the client. A run is non-trivial when the session was established, at least one flow was verified byte-for-byte to end-of-stream with >0 bytes and (fault sub-batch) at least one network fault fired; distinct = distinct plan hashes among those. raw-preamble-segmentation: the scripted raw peer (both roles) opens 1-4 WebTransport uni / bidi streams whose preamble (type / signal + session id encoded on 1, 2, 4 or 8 bytes) and payload (0..5000 B) are written in 1-4 pieces with network quiescence between the pieces (cuts mostly inside the preamble), optionally under the short-read cap; the application must read exactly the payload of every stream and be handed nothing else.",
+        rule: "Each run: real wtransport client and server over the simulated network, 1-12 concurrent streams over the roles {client,server} x {uni, bidi (both directions)}, payload lengths boundary-biased from 0 to 3 flow-control windows (windows are per-run knobs), generated write partitions (write / write_all / tokio AsyncWrite) and read partitions (read / read_exact / tokio AsyncRead, buffers 1 B..64 KiB) with pauses, a third of the bidirectional streams joined into a BiStream on either side and used through tokio's AsyncRead / AsyncWrite, optional 1-3 byte short-read cap on protocol-level reads; the fault batch adds loss / duplication / reordering / corruption for the first 30 s plus 0-3 scripted link events: two-way or one-way partitions of 20 ms-4 s that heal, inbound stalls of 5-400 ms at either node, NAT rebinds of the client. A run is non-trivial when the session was established, at least one flow was verified byte-for-byte to end-of-stream with >0 bytes and (fault sub-batch) at least one network fault fired; distinct = distinct plan hashes among those. raw-preamble-segmentation: the scripted raw peer (both roles; against the server the session id is 0, 4, 8, 60, 64, 252, 256 or 1200 - the CONNECT stream follows 0-300 burnt streams) opens 1-4 WebTransport uni / bidi streams whose preamble (type / signal + session id encoded on 1, 2, 4 or 8 bytes) and payload (0..5000 B) are written in 1-4 pieces with network quiescence between the pieces (cuts mostly inside the preamble), optionally under the short-read cap; the application must read exactly the payload of every stream and be handed nothing else.",
         assumptions: vec![
             "quinn, quinn-proto, rustls, ring and tokio are executed for real but trusted: a QUIC-level data loss would be attributed to wtransport until triaged",
             "parallelism is modelled as interleaving at await points on a current-thread runtime; data races inside tokio/quinn primitives are out of scope",
